@@ -569,6 +569,11 @@ structure Case where
   /-- the harness purges re's compile cache between the two constructions, so that equal regexes compile
       to distinct pattern objects (nothing in the model depends on it: `C18_purge_irrelevant`) -/
   purge : Bool
+  /-- the history after the first call: further values (ids into `vals`; the same object after a change
+      of the world — an ABC registration, an attribute set or deleted, a list grown — is a new id, with the
+      primitives evaluated at the time of that call) handed, in this order, to the very same validator
+      object or to one freshly built from the same expression (harness-only: the model has no state) -/
+  more  : List Nat
   vals  : List VRow
   prim  : List Row
   deriving Repr, FromJson, ToJson, Inhabited
@@ -605,6 +610,14 @@ def Case.eqOracle (c : Case) : EqOracle where
   phash s p := lookup c.prim [13, s, p]
   phashEq s p p' := lookup c.prim [14, s, p, p'] == .t
 
+/-- one later call of the history -/
+structure StepObs where
+  outcome   : Option ExcKind
+  retNone   : Bool
+  unchanged : Bool
+  trace     : List (Nat × String)
+  deriving DecidableEq, Repr, FromJson, ToJson, Inhabited
+
 structure Obs where
   /-- exception raised while constructing the first validator -/
   build     : Option ExcKind
@@ -623,6 +636,8 @@ structure Obs where
   hash2     : Option ExcKind
   /-- `v == v2` true and both hashable ⇒ the hashes are equal -/
   hashAgree : Bool
+  /-- the later calls of the history, in order -/
+  more      : List StepObs
   deriving DecidableEq, Repr, FromJson, ToJson, Inhabited
 
 def fpOf (c : Case) (x : Nat) : String := match vrow c x with | some r => r.fp | none => "?"
@@ -633,11 +648,18 @@ def retNoneOf (t : V) (out : Option ExcKind) : Bool :=
   | .probe _ retv => out.isSome || !retv
   | _ => true
 
+/-- a later call: the same function of (built object, oracle at that time, value) as the first one —
+    validators keep no state between calls -/
+def stepOf (c : Case) (x : Nat) : StepObs :=
+  let r := eval c.oracle (norm c.tree) x
+  { outcome := r.1, retNone := retNoneOf c.tree r.1, unchanged := true,
+    trace := r.2.map (fun e => (e.1, fpOf c e.2)) }
+
 def model (c : Case) : Obs :=
   match buildErr c.buildOracle c.tree with
   | some k =>
     { build := some k, outcome := none, retNone := true, unchanged := true, trace := [],
-      build2 := none, eq := .f, hash1 := none, hash2 := none, hashAgree := true }
+      build2 := none, eq := .f, hash1 := none, hash2 := none, hashAgree := true, more := [] }
   | none =>
     let b := norm c.tree
     let r := eval c.oracle b 0
@@ -645,7 +667,8 @@ def model (c : Case) : Obs :=
     match buildErr c.buildOracle c.tree2 with
     | some k =>
       { build := none, outcome := r.1, retNone := retNoneOf c.tree r.1, unchanged := true, trace := tr,
-        build2 := some k, eq := .f, hash1 := none, hash2 := none, hashAgree := true }
+        build2 := some k, eq := .f, hash1 := none, hash2 := none, hashAgree := true,
+        more := c.more.map (stepOf c) }
     | none =>
       let b2 := norm c.tree2
       let eo := c.eqOracle
@@ -654,6 +677,7 @@ def model (c : Case) : Obs :=
       let h2 := vhash eo b2
       { build := none, outcome := r.1, retNone := retNoneOf c.tree r.1, unchanged := true, trace := tr,
         build2 := none, eq := e, hash1 := h1, hash2 := h2,
-        hashAgree := if e == .t && h1 == none && h2 == none then vhashEq eo b b2 else true }
+        hashAgree := if e == .t && h1 == none && h2 == none then vhashEq eo b b2 else true,
+        more := c.more.map (stepOf c) }
 
 end Attrs.C18
